@@ -237,8 +237,11 @@ namespace OP2Utility::Archive
 		clmFileWriter.Write(indexEntries);
 
 		// Copy files into the archive
+		// Note: Each reader is positioned at the start of its data chunk. Only the data chunk is copied,
+		// as the source file may contain further chunks after it.
 		for (std::size_t i = 0; i < header.packedFilesCount; ++i) {
-			clmFileWriter.Write(*filesToPackReaders[i]);
+			auto dataSlice = filesToPackReaders[i]->Slice(indexEntries[i].dataLength);
+			clmFileWriter.Write(dataSlice);
 		}
 	}
 
